@@ -148,6 +148,19 @@ pub struct RuleCore<L: Language> {
 }
 
 impl<L: Language> RuleCore<L> {
+  /// check that every `matches` in the rule, its local utils, constraints and fix is defined
+  pub(crate) fn verify_utils(&self) -> Result<(), RuleSerializeError> {
+    self.rule.verify_util()?;
+    self.registration.verify_local_utils()?;
+    for constraint in self.constraints.values() {
+      constraint.verify_util()?;
+    }
+    if let Some(fixer) = &self.fixer {
+      fixer.verify_util()?;
+    }
+    Ok(())
+  }
+
   #[inline]
   pub fn new(rule: Rule<L>) -> Self {
     let kinds = rule.potential_kinds();
